@@ -24,6 +24,25 @@ pub fn run_keyid(sc: &Value) -> Value {
     let value = bytes(&sc["value"]);
     let algs: Option<Vec<String>> = if sc["algs"].is_null() { None } else { Some(sc["algs"].as_array().unwrap().iter().map(|x| x.as_str().unwrap().to_string()).collect()) };
     let default = algs.as_ref().map(|a| a == &vec!["sha256".to_string(), "sha512".to_string()]).unwrap_or(false);
+    // `via`: the construction path the model blames (the public SPKI importers fix the default algorithm list)
+    let via = sc["via"].as_str().unwrap_or("");
+    if via == "from_spki" || via == "from_pem_spki" {
+        if !default { return json!({"outcome": "not-constructible-through-public-api"}); }
+        let (params, scheme) = match sc["key"].as_str().unwrap() {
+            "ed25519" => { let mut p = tlv(6, &[0x2b,0x65,0x70]); p.extend([5u8, 0]); (p, SignatureScheme::Ed25519) }
+            "ecdsa" => { let mut p = tlv(6, &[0x2a,0x86,0x48,0xce,0x3d,0x02,0x01]); p.extend(tlv(6, &[0x2a,0x86,0x48,0xce,0x3d,0x03,0x01,0x07])); (p, SignatureScheme::EcdsaP256Sha256) }
+            k => { let mut p = tlv(6, &[0x2a,0x86,0x48,0x86,0xf7,0x0d,0x01,0x01,0x01]); p.extend([5u8, 0]); (p, if k == "rsa512" { SignatureScheme::RsaSsaPssSha512 } else { SignatureScheme::RsaSsaPssSha256 }) }
+        };
+        let der = spki(&params, &value);
+        let r = if via == "from_spki" { PublicKey::from_spki(&der, scheme) } else {
+            let b64 = data_encoding::BASE64.encode(&der);
+            let mut pem = String::from("-----BEGIN PUBLIC KEY-----\n");
+            for c in b64.as_bytes().chunks(64) { pem.push_str(std::str::from_utf8(c).unwrap()); pem.push('\n'); }
+            pem.push_str("-----END PUBLIC KEY-----\n");
+            PublicKey::from_pem_spki(&pem, scheme)
+        };
+        return match r { Ok(k) => json!({"outcome": format!("keyid:{}", keyid(&k))}), Err(e) => json!({"outcome": crate::err_name(&e)}) };
+    }
     let r = match sc["key"].as_str().unwrap() {
         "ed25519" => PublicKey::from_ed25519_with_keyid_hash_algorithms(value, algs),
         "ecdsa" => PublicKey::from_ecdsa_with_keyid_hash_algorithms(value, algs),
